@@ -132,6 +132,18 @@ class _Subst(ast.NodeTransformer):
             return _Subst(self.env, self.depth + 1).visit(val)
         return node
 
+    def visit_Subscript(self, node):
+        node = self.generic_visit(node)
+        # {'k': v, ...}['k']  ->  v  (a record built and read back)
+        if isinstance(node.value, ast.Dict) and \
+                isinstance(node.slice, ast.Constant) and \
+                isinstance(node.ctx, ast.Load):
+            for key, val in zip(node.value.keys, node.value.values):
+                if isinstance(key, ast.Constant) and \
+                        key.value == node.slice.value:
+                    return val
+        return node
+
     def visit_Lambda(self, node):
         return node
 
